@@ -17,7 +17,7 @@ import (
 
 const (
 	c07AllocBase    = 256 << 10 // bytes
-	c07AllocPerByte = 4096      // bytes of TotalAlloc allowed per input byte
+	c07AllocPerByte = 2048      // bytes of TotalAlloc allowed per input byte (the unchanged decoder needs 1..550, measured over all generated shapes)
 	c07DepthCap     = 2000      // generators never nest deeper: decoding time is quadratic in depth, and extreme depth is an open known finding
 )
 
